@@ -25,11 +25,21 @@ def _views(proc):
     return v
 
 
+def _plain(x):
+    """Mappings of any type as dictionaries (compared without regard to the order of the keys), sequences as lists."""
+    import collections.abc
+    if isinstance(x, collections.abc.Mapping):
+        return {str(k): _plain(v) for k, v in x.items()}
+    if isinstance(x, (list, tuple)):
+        return [_plain(v) for v in x]
+    return _jsonable(x)
+
+
 def _snapshot_views(proc):
     """What a checkpoint must preserve, as far as it shows through the public accessors."""
-    return {'state': proc.state.value, 'outputs': _jsonable(proc.outputs), 'trace': _jsonable(list(getattr(proc, 'trace', ()))),
-            'ctx': _jsonable(dict(proc.ctx.__dict__)) if getattr(proc, 'ctx', None) is not None else None,
-            'raw_inputs': _jsonable(proc.raw_inputs) if proc.raw_inputs is not None else None}
+    return {'state': proc.state.value, 'outputs': _plain(proc.outputs), 'trace': _plain(list(getattr(proc, 'trace', ()))),
+            'ctx': _plain(dict(proc.ctx.__dict__)) if getattr(proc, 'ctx', None) is not None else None,
+            'raw_inputs': _plain(proc.raw_inputs) if proc.raw_inputs is not None else None}
 
 
 def run_with_crashes(make_proc, crash_points, resume_for_wait, transport=None, budget=4000, max_restores=64, persister=None, lag=0, resume_mode='plain',
